@@ -12,7 +12,7 @@ from cv.vhdl.values import SimError  # noqa: F401  (re-exported)
 
 
 class Built:
-    __slots__ = ("status", "sim", "info", "vhdl", "snap0")
+    __slots__ = ("status", "sim", "info", "vhdl", "snap0", "static")
 
     def __init__(self, status, sim=None, info="", vhdl=None):
         self.status = status  # ok | rejected | blocked | blocked_by_static
@@ -20,9 +20,13 @@ class Built:
         self.info = info
         self.vhdl = vhdl
         self.snap0 = None
+        self.static = ""
 
 
-def build(src: str, top: str = "Top", init: dict | None = None) -> Built:
+def build(src: str, top: str = "Top", init: dict | None = None, despite_static: bool = False) -> Built:
+    """despite_static: a design with static errors is still elaborated when the engine can (Sim(check_static=False))
+    so that a behavioural check can look at what it *does*; Built.static then names the rules, status stays
+    blocked_by_static when elaboration is impossible."""
     try:
         vhdl = compile_source(src, top)
     except Rejected as e:
@@ -30,18 +34,27 @@ def build(src: str, top: str = "Top", init: dict | None = None) -> Built:
     d = analyse(vhdl)
     if d.unsupported:
         return Built("blocked", info=str(d.unsupported)[:300], vhdl=vhdl)
+    static = ""
     if d.errors:
-        return Built("blocked_by_static", info="; ".join(sorted({e.rule for e in d.errors})) + ": " + str(d.errors[0])[:200],
-                     vhdl=vhdl)
+        static = "; ".join(sorted({e.rule for e in d.errors})) + ": " + str(d.errors[0])[:200]
+        if not despite_static:
+            return Built("blocked_by_static", info=static, vhdl=vhdl)
     try:
-        sim = Sim(d, top=top, inputs=init or None)  # inputs defined during the initial run of all processes
+        # inputs defined during the initial run of all processes
+        sim = Sim(d, top=top, inputs=init or None) if not static else Sim(d, top=top, inputs=init or None, check_static=False)
         if init:
             sim.poke(**init)
     except Blocked as e:
-        return Built("blocked", info=str(e)[:300], vhdl=vhdl)
+        return Built("blocked_by_static" if static else "blocked", info=static or str(e)[:300], vhdl=vhdl)
     except SimError as e:
-        return Built("blocked", info=f"SimError at elaboration: {e}"[:300], vhdl=vhdl)
+        return Built("blocked_by_static" if static else "blocked", info=static or f"SimError at elaboration: {e}"[:300],
+                     vhdl=vhdl)
+    except Exception:  # noqa: BLE001 - elaborating a statically wrong design may fail in any way
+        if static:
+            return Built("blocked_by_static", info=static, vhdl=vhdl)
+        raise
     b = Built("ok", sim=sim, vhdl=vhdl)
+    b.static = static
     b.snap0 = sim.snapshot()
     return b
 
@@ -49,13 +62,13 @@ def build(src: str, top: str = "Top", init: dict | None = None) -> Built:
 _cache: dict = {}
 
 
-def build_cached(key: str, make_src, init: dict | None = None, limit: int = 64) -> Built:
+def build_cached(key: str, make_src, init: dict | None = None, limit: int = 64, despite_static: bool = False) -> Built:
     """One elaborated simulator per configuration and process; every use restores the initial snapshot."""
     b = _cache.get(key)
     if b is None:
         if len(_cache) >= limit:
             _cache.pop(next(iter(_cache)))
-        b = _cache[key] = build(make_src(), init=init)
+        b = _cache[key] = build(make_src(), init=init, despite_static=despite_static)
     if b.status == "ok":
         b.sim.restore(b.snap0)
         b.sim.assert_failures = 0
